@@ -46,6 +46,19 @@ def decorate(spec):
                 t["fixF"] = []
         if t.get("due") is None and rq.random() < 0.25:
             t["due"] = rq.randint(0, 12)
+    # per-resource absence lists need not be ascending
+    for tm in spec.get("teams", []):
+        for w in tm["workers"]:
+            if len(w.get("absence", [])) > 1 and rq.random() < 0.4:
+                w["absence"] = list(reversed(w["absence"]))
+    for q in spec.get("workplaces", []):
+        for f in q["facilities"]:
+            if len(f.get("absence", [])) > 1 and rq.random() < 0.4:
+                f["absence"] = list(reversed(f["absence"]))
+    # teams wired through the constructor (BaseTeam(targeted_task_list=...)): the tasks' own allocated_team_list
+    # then stays empty; the simulator reads the team side only
+    if rq.random() < 0.2:
+        spec["team_wiring"] = "ctor"
     # what IDs look like must not matter: plain integers from 0 per kind (a falsy ID; equal IDs for objects of
     # different kinds) or the same as strings
     r = rq.random()
